@@ -58,6 +58,8 @@ class Profile:
         self.p_savecs = 0.0            # probability that a version is written through SaveChangeSet
         self.p_reopen_old = 0.0        # reopen positioned on an older version (reads only), then back to latest
         self.p_save_existing = 0.5     # after loading an old version: replay the same writes (idempotent save)
+        self.p_huge = 0.0              # probability (per history end) of one version of > 2000 keys that is then rolled back, followed by a restart
+        self.p_unloaded = 0.0          # probability (per history end) of replaying the first version on a handle that was not loaded
         self.p_iterrace = 0.0          # conc mode only: probability that a commit races a parked index reader
         self.p_hold = 0.0              # probability that a deletion is attempted while an export pins one of its versions
         self.p_churn = 0.05            # probability of a version with many inserts, a hash query, then many removals
@@ -539,6 +541,16 @@ class Hist:
             self.base = nxt
             self.working = dict(self.versions[nxt])
             self.read_ops(2)
+            if nxt == vs[-1] and r.random() < 0.6:
+                # the replay reached the latest version: go on from this tree object (its nodes were
+                # built in memory by the replay, not read from the store) instead of reloading
+                self.dirty = False
+                self.curlog = []
+                if r.random() < 0.5:
+                    self.write_ops()
+                    self.rollback()
+                    self.read_ops(2)
+                return
         elif nxt in self.versions and r.random() < 0.5:
             self.emit("set %s %s" % (enc(b"zz-differs"), enc(b"1")))
             self.emit("save")          # different hash: must fail and leave the store unchanged
@@ -549,6 +561,75 @@ class Hist:
         self.working = dict(self.versions[self.base])
         self.dirty = False
         self.curlog = []
+
+    def huge_rollback(self):
+        """a version that writes more than two thousand keys (more than 4096 node records), discarded by a
+        rollback to the version before it, then a restart: record ranges deleted in several chunks"""
+        r = self.r
+        if not self.versions or self.base != self.latest():
+            return
+        if self.dirty:
+            self.rollback()
+        pre = self.base
+        n = r.randint(2100, 2600)
+        for i in range(n):
+            k = b"h%05d" % i
+            v = bytes([r.randrange(1, 256)])
+            self.emit("set %s %s" % (enc(k), enc(v)))
+            self.working[k] = v
+        self.dirty = True
+        self.save()
+        if r.random() < 0.5:
+            self.write_ops()
+            self.save()
+        self.emit("loadow %d" % pre)
+        for u in list(self.versions):
+            if u > pre:
+                del self.versions[u]
+        self.base = pre
+        self.working = dict(self.versions[pre])
+        self.dirty = False
+        self.curlog = []
+        self.emit("avail")
+        self.reopen()
+        self.emit("avail")
+        self.emit("latest")
+        self.emit("vexists %d" % (pre + 1))
+        self.sweep()
+
+    def unloaded_replay(self):
+        """a new tree object on the existing store that is not loaded: the first version is replayed from
+        the empty tree and committed again (identical: succeeds without effect; different: refused)"""
+        r = self.r
+        if not self.versions or self.pruned_ever or self.first() != 1 or 1 not in self.wlog or self.cfg.get("iv") not in (None, 1):
+            return
+        if self.dirty:
+            self.rollback()
+        self.emit("close")
+        self.emit("cfg db=%s cache=%d fast=%d thr=%d iv=-" % (self.cfg["db"], r.choice(self.p.caches), int(r.choice(self.p.fasts)), r.choice(self.p.thrs)))
+        self.iv_pending = None
+        self.iv_opt = 0
+        self.emit("opennl")
+        for op in self.wlog[1]:
+            if op[0] == "rm":
+                self.emit("rm %s" % enc(op[1]))
+            else:
+                self.emit("set %s %s" % (enc(op[1]), enc(op[2])))
+        if r.random() < 0.6:
+            self.emit("save")                      # identical: version 1 again, nothing changes
+        else:
+            self.emit("set %s %s" % (enc(b"zz-differs"), enc(b"1")))
+            self.emit("save")                      # different: refused
+            self.emit("rollback")
+        # (no reads through this handle before it is loaded: the fast-index upgrade check runs in Load)
+        self.emit("avail")
+        self.emit("latest")
+        self.emit("load 0")
+        self.base = self.latest()
+        self.working = dict(self.versions[self.base])
+        self.dirty = False
+        self.curlog = []
+        self.sweep()
 
     def run(self):
         r, p = self.r, self.p
@@ -604,6 +685,10 @@ class Hist:
             elif x < p.p_loadow + p.p_reopen + p.p_load_old + p.p_delfrom:
                 self.delfrom()
                 self.after_commit()
+        if r.random() < p.p_huge and self.opened:
+            self.huge_rollback()
+        if r.random() < p.p_unloaded and self.opened:
+            self.unloaded_replay()
         if r.random() < p.empty_out and self.opened:
             # once every key has been removed and older versions deleted no node remains at all
             if self.dirty:
